@@ -173,6 +173,7 @@ func (in *Interp) runInits(p *Program) {
 		in.initPackage(sp)
 	}
 	in.initing = false
+	in.initStoreGlobals()
 	in.snapshotGlobals()
 }
 
